@@ -41,6 +41,43 @@ def _seg_one(idx):
     return {"idx": idx, "fail": None, "msgs": sum(len(x) for x in base[0].values())}
 
 
+def _fin_one(idx):
+    """the last request of every connection and its end of stream arrive in ONE readiness event, or in two: the request must
+    be processed either way (same answers, same effect on the others)"""
+    r = C.rng("xdiff", "fin", idx)
+    sc = G.scenario(r, ws_share=0.3, batches=0.05, malformed=0.0, allow_close=False)
+    base = dcheck.run_one(sc)
+    closed = set(c for x in base["itr"].closed for c in x)
+    conns = [st[1] for st in sc.steps if st[0] == "connect" and st[1] not in closed]
+    if not conns:
+        return {"idx": idx, "fail": None, "msgs": 0}
+    last = {c: D.obj(method="add", params=D.obj(path="fin/%d" % c, value=c), id="fin%d" % c) for c in conns}
+    a_steps = list(sc.steps) + [("quiesce",)]
+    b_steps = list(sc.steps) + [("quiesce",)]
+    for c in conns:
+        a_steps += [("msg", c, last[c]), ("eof", c)]
+        b_steps += [("mixed", [("msg", c, last[c]), ("eof", c)])]
+    a_steps.append(("quiesce",))
+    b_steps.append(("quiesce",))
+    a_sc = D.Scenario(a_steps, sc.variant, sc.users, sc.groups, sc.name + "-fin-apart")
+    b_sc = D.Scenario(b_steps, sc.variant, sc.users, sc.groups, sc.name + "-fin-together")
+    ra, rb = dcheck.run_one(a_sc), dcheck.run_one(b_sc)
+    for res in (ra, rb):
+        if res["res"]["sanitizer"] or res["log"].faults:
+            return {"idx": idx, "fail": "sanitizer/hygiene: %s %s" % (res["res"]["sanitizer"], res["log"].faults[:1]), "sc": b_sc.to_json()}
+    va, vb = _view(a_sc, ra), _view(b_sc, rb)
+    # the streams are compared as multisets per connection: a leaving peer's removal notifications may interleave differently
+    # with the next peer's add when both arrive in one event; what must not differ is WHAT each connection receives in total
+    def norm(v):
+        return ({c: sorted(repr(x) for x in xs) for c, xs in v[0].items()}, v[1], v[2])
+    if norm(va) != norm(vb):
+        na, nb = norm(va), norm(vb)
+        what = "messages received" if na[0] != nb[0] else ("closed connections" if na[1] != nb[1] else "final element image")
+        return {"idx": idx, "fail": "a request followed by the end of its stream is treated differently when both arrive in one event (%s differ)" % what,
+                "sc": b_sc.to_json()}
+    return {"idx": idx, "fail": None, "msgs": sum(len(x) for x in va[0].values())}
+
+
 def segmentation(ctx, out, n_quick=120, n_thorough=2000):
     n = n_thorough if ctx.thorough else n_quick
     dcheck.binary("default")
@@ -55,6 +92,20 @@ def segmentation(ctx, out, n_quick=120, n_thorough=2000):
     for r in bad[:3]:
         out.violation("whole daemon: " + r["fail"], {"property": "C09", "scenario": r["sc"], "chunk_seed": r.get("chunk_seed"),
                                                      "what": r["fail"], "family": "same session, three segmentations of every message"})
+    nf = max(20, n // 3)
+    badf = []
+    totf = 0
+    with ProcessPoolExecutor(C.NPROC) as ex:
+        for r in ex.map(_fin_one, [ctx.seed * 1000003 + i for i in range(nf)], chunksize=2):
+            if r["fail"]:
+                badf.append(r)
+            else:
+                totf += r["msgs"]
+    for r in badf[:2]:
+        out.violation("whole daemon: " + r["fail"], {"property": "C09", "scenario": r["sc"], "what": r["fail"],
+                                                     "family": "last request and end of stream in one readiness event vs. two"})
+    out.coverage["daemon_fin_together_sessions"] = nf
+    out.coverage["daemon_fin_together_failures"] = len(badf)
     out.coverage["daemon_segmentation_sessions"] = n
     out.coverage["daemon_segmentation_messages_compared"] = tot
     out.coverage["daemon_segmentation_failures"] = len(bad)
